@@ -65,6 +65,9 @@ def replicated_newfunc(ctx, kws, nargs, target):
     names = []
 
     def get_func_name(I, selfv, a, k):
+        # contract of _getFuncName (unit getFuncName): one argument, the name; the enabled implementation's name, or KeyError
+        if len(a) != 1 or k:
+            raise Undecided('_getFuncName called outside its contract (arguments %r %r)' % (tuple(a), sorted(k)))
         names.append(a[0])
         return ('NAME', a[0])
 
